@@ -70,6 +70,10 @@ class Stream:
         self.used.append(v)
         return v
 
+    def exhausted(self) -> bool:
+        """replay mode only: the record has no more values (every further choice is 0)"""
+        return self.rng is None and self.pos >= len(self.rec)
+
     # helpers: 0 is always the simplest alternative
     def flag(self, num: int, den: int) -> bool:
         """True with probability num/den; recorded value 0 means False."""
@@ -303,6 +307,18 @@ def _worker_block(args):
             if known_keys and hasattr(check, 'classify'):
                 try:
                     key = check.classify(res, used, tier)
+                except Exception:
+                    out['harness'] = {'run': i, 'seed': seed, 'trace': traceback.format_exc()}
+                    break
+            if known_keys and hasattr(check, 'classify') and (key is None or key not in known_keys):
+                # a raw failing run may mix several things: minimise briefly, then classify the minimal case
+                try:
+                    rec2, res2, _ = shrink(check, tier, used, res.violation['cls'], 4,
+                                           getattr(check, 'STREAM_ORDER', None))
+                    if res2 is not None:
+                        key2 = check.classify(res2, rec2, tier)
+                        if key2 is not None and key2 in known_keys:
+                            key = key2
                 except Exception:
                     out['harness'] = {'run': i, 'seed': seed, 'trace': traceback.format_exc()}
                     break
